@@ -78,10 +78,11 @@ static volatile int g_xpend = 0;          // the closure finished with an error 
 static volatile int g_xlate = 0;          // a vertex was invoked after closure.wait() had returned
 static volatile bool g_wait_returned = false;
 static size_t g_inj_started = 0, g_inj_done = 0;
+static volatile int g_code = 99, g_tr = 1;   // closure code once get() returned; 0 if a target was not ready on success
 static void crash_handler(int sig) {      // x-mode cases run one per process: report the crash as this case's line
   char buf[512];
-  int n = snprintf(buf, sizeof buf, "%s ok steps=0 pre=0 | code=99 vals= ran= act= inj= xp=%d xl=%d crash=%d | once=1 deps=1 flag=1 "
-                   "input=1 dataonce=1 wait=1 fin=1 tgtready=1 sealed=1 observed=1\n", g_id, g_xpend, g_xlate, sig);
+  int n = snprintf(buf, sizeof buf, "%s ok steps=0 pre=0 | code=%d vals= ran= act= inj= xp=%d xl=%d crash=%d tr=%d | once=1 deps=1 flag=1 "
+                   "input=1 dataonce=1 wait=1 fin=1 tgtready=1 sealed=1 observed=1\n", g_id, g_code == 0 ? 0 : (g_code == 99 ? 99 : 1), g_xpend, g_xlate, sig, g_tr);
   if (write(1, buf, (size_t)n) < 0) {}
   _exit(0);
 }
@@ -280,7 +281,9 @@ int main() {
     bool inplace = w[3][0] == 'I' || unit;
     int workers = inplace ? 0 : atoi(w[3].c_str() + 1);
     int cycles = atoi(w[4].c_str());
-    bool inflight = w[3].find('x') != std::string::npos;
+    // 'y': REQUESTED TARGETS are emitted by other threads concurrently with run() (run() does not wait for anything)
+    bool ymode = w[3].find('y') != std::string::npos;
+    bool inflight = w[3].find('x') != std::string::npos || ymode;
     Ctx ctx; C = &ctx;
     int nd = 0;
     for (auto& vs : split(w[5], ';')) {
@@ -413,7 +416,7 @@ int main() {
       for (auto& p : presets) if (ctx.data[p.d]) publish(ctx.data[p.d], p.d, p.empty, p.v, nullptr);
       int code = 12345; bool stop = false; bool finished_after_get = false;
       std::vector<int> injvalid; size_t inj_done = 0;
-      g_xpend = 0; g_xlate = 0; g_wait_returned = false; g_inj_started = 0; g_inj_done = 0;
+      g_xpend = 0; g_xlate = 0; g_wait_returned = false; g_inj_started = 0; g_inj_done = 0; g_code = 99; g_tr = 1;
       for (auto& th : injectors) for (size_t k = 0; k < th.size(); ++k) injvalid.push_back(-1);
       std::vector<std::function<void()>> bodies;
       Closure ucl;
@@ -436,12 +439,14 @@ int main() {
         // externally injected data: emitted by other threads; run() starts once their emit calls have returned
         // (mode suffix 'x': run() may start as soon as the data is sealed, i.e. while the injector is still inside
         // release() - the closure accounting does not cover that and may finish early with -1; probe only, not generated)
-        if (inflight) { for (auto& th : injectors) for (auto& in : th) if (ctx.data[in.d]) while (!ctx.data[in.d]->ready()) usleep(1); }
+        if (ymode) {}
+        else if (inflight) { for (auto& th : injectors) for (auto& in : th) if (ctx.data[in.d]) while (!ctx.data[in.d]->ready()) usleep(1); }
         else while (inj_done < injectors.size()) usleep(1);
         Closure cl = graph->run(td.data(), td.size());
         code = cl.get();
         finished_after_get = cl.finished();
         if (code == 0) for (auto* g : td) if (!g->ready()) tgt_ready = false;
+        g_code = code; g_tr = tgt_ready ? 1 : 0;
         cl.wait();
         g_wait_returned = true;
         if (ctx.in_process != 0 || !exec.q.empty()) wait_ok = false;
